@@ -1,6 +1,6 @@
 (* ApiMul.v — correspondence entry points for C01.  Definitions only. *)
 From Coq Require Import ZArith List Bool.
-From Mpir Require Import Word Limbs MpnBasicDefs MpzDefs MpnMulDefs FftDefs ApiBasic.
+From Mpir Require Import Word Limbs MpnBasicDefs MpzDefs MpnMulDefs FftDefs ApiBasic Toom3Defs.
 From MpirGen Require Import Gen_Tables.
 Import ListNotations.
 Local Open Scope Z_scope.
@@ -65,3 +65,17 @@ Definition api_mpz_addmul_ui : api := fun a =>
   let x := argmpz a 1 in let w := if argz a 3 =? 1 then x else argmpz a 0 in out_mpz (mpz_addmul_ui w x (argz a 2)).
 Definition api_mpz_submul_ui : api := fun a =>
   let x := argmpz a 1 in let w := if argz a 3 =? 1 then x else argmpz a 0 in out_mpz (mpz_submul_ui w x (argz a 2)).
+
+(* mpn_toom3_points n A B : the operands of the five recursive products of mpn_toom3_mul_n in call order (the evaluation points
+   at 1, -1 (magnitudes), 2, 0, infinity) and the product computed by the Toom-3 model *)
+Definition api_mpn_toom3_points : api := fun t =>
+  let n := argz t 0 in let a := argz t 1 in let b := argz t 2 in
+  let k := (n + 2) / 3 in
+  let a0 := toom3_lo k a in let a1 := toom3_mid k a in let a2 := toom3_hi k a in
+  let b0 := toom3_lo k b in let b1 := toom3_mid k b in let b2 := toom3_hi k b in
+  let sa := toom3_sign (a0 + a2) a1 in let sb := toom3_sign (b0 + b2) b1 in
+  [TZ 5; TZ (a0 + a2 + a1); TZ (b0 + b2 + b1);
+   TZ (toom3_absdiff sa (a0 + a2) a1); TZ (toom3_absdiff sb (b0 + b2) b1);
+   TZ (toom3_eval2 a0 a1 a2); TZ (toom3_eval2 b0 b1 b2);
+   TZ a0; TZ b0; TZ a2; TZ b2;
+   TZ (toom3_mul Z.mul k a b)].
